@@ -131,3 +131,64 @@ Example C04_discard_patterns_nonvacuous :
   pat_monitor c pat fs [mkEv 2 [7; 8; 9] false false] (dr_err d) = false /\
   pat_monitor c pat fs [mkEv 9 [1; 2; 3] true true; mkEv 2 [8; 9] false false] (dr_err d) = false.
 Proof. vm_compute. repeat split; reflexivity. Qed.
+
+(* ------------------------------------------------------------------ the ReadData family *)
+Require Import Writer Handler ReadData CipherProofs ReadDataProofs.
+
+(* wsutil.ReadData / ReadClientData / ReadClientText / ReadClientBinary / ReadServerData / …
+   (helper.go:readData, model [read_data_call] in coq/model/ReadData.v: a fresh Reader with
+   CheckUTF8 and the control handler as OnIntermediate; loop NextFrame — control frame: read
+   it, Handle it; data frame of an unwanted kind: Discard; wanted: read to io.EOF, return).
+   SPEC ([rx_walk] over the frame-sequence spec's events): for each ping a pong with the
+   identical payload, nothing for a pong, for a close the echo of its status code (empty
+   for an empty close) resp. a 1002/1007 close for an invalid one — and then stop; the
+   result is the first data message whose opcode is wanted (first opcode + exact
+   concatenated unmasked payload), or the close's code/reason, or the protocol error, or
+   an error when the stream ends first. [rx_monitor]: the destination bytes parse into
+   exactly these replies, in stream order, each ONE final frame the peer's CheckHeader
+   accepts (masked iff we are the client, payload at most 125 bytes, rsv = 0), and the
+   result is the expected one.
+   For EVERY valid complete frame stream (outcome OClean: all header rules, text messages
+   valid UTF-8), both sides, every wanted kind, every transport chunking [s] of its wire
+   bytes and every list of well-formed masking keys (short lists fall back to the zero
+   key): ONE call meets the monitor — control frames at top level AND interleaved in
+   skipped or wanted fragmented messages are answered, in order; skipped messages leak
+   nothing; the fuel bound |wire|+2 excludes the out-of-fuel artefact. (The hypothesis on
+   [want] is not used by the proof.) *)
+Theorem C04_read_data_meets_spec : forall state want fs s masks fuel,
+  (state = 1 \/ state = 2) -> (want = 1 \/ want = 2 \/ want = 3) ->
+  Forall wf_sframe fs -> Forall wf_key masks ->
+  sr_out (spec_run (mkCfg state true 0 false) 0 None [] fs) = OClean ->
+  wf_src s -> tl s = TEOF -> flat s = wire fs ->
+  (length (wire fs) + 2 <= fuel)%nat ->
+  let '(res, log) := read_data_call fuel want state s masks in
+  rx_monitor state want fs res log = true.
+Proof. exact read_data_meets_spec. Qed.
+Print Assumptions C04_read_data_meets_spec.
+
+Example C04_read_data_nonvacuous :
+  let k1 := [17; 34; 51; 68] in let k2 := [255; 0; 128; 7] in
+  let fs := [mkSF true 0 9 (Some k1) [1; 2; 3];               (* ping before anything: pong [1;2;3] *)
+             mkSF false 0 1 (Some k1) [226; 130];             (* text, fragmented: not wanted, skipped *)
+             mkSF true 0 9 (Some k2) [4];                     (* ping inside it: still answered *)
+             mkSF true 0 0 (Some k1) [172; 104; 105];
+             mkSF true 0 10 (Some k2) [9];                    (* pong: nothing *)
+             mkSF false 0 2 (Some k2) [7; 8];                 (* binary: wanted *)
+             mkSF true 0 9 (Some k2) [];                      (* empty ping inside it *)
+             mkSF true 0 0 (Some k2) [9];
+             mkSF true 0 8 (Some k1) [3; 232]] in             (* never reached *)
+  let s := mkSrc (chunk_by [3; 1; 7; 2; 2; 9; 1; 1; 4; 30] (wire fs)) TEOF in
+  let '(res, log) := read_data_call (length (wire fs) + 2) 2 1 s [] in
+  sr_out (spec_run (mkCfg 1 true 0 false) 0 None [] fs) = OClean /\
+  rx_monitor 1 2 fs res log = true /\
+  res = RDData 2 [7; 8; 9] /\
+  concat log = [138; 3; 1; 2; 3; 138; 1; 4; 138; 0] /\
+  (* the monitor is not vacuous: a lost, an altered, a surplus reply or a wrong result is refused *)
+  rx_monitor 1 2 fs res [[138; 3; 1; 2; 3]; [138; 0]] = false /\
+  rx_monitor 1 2 fs res [[138; 3; 1; 2; 3]; [138; 1; 5]; [138; 0]] = false /\
+  rx_monitor 1 2 fs res (log ++ [[138; 0]]) = false /\
+  rx_monitor 1 2 fs (RDData 2 [7; 8]) log = false /\
+  (* the same stream, text wanted: the first message is returned, only the first two pings answered *)
+  read_data_call (length (wire fs) + 2) 1 1 s [] =
+    (RDData 1 [226; 130; 172; 104; 105], [[138; 3; 1; 2; 3]; [138; 1; 4]]).
+Proof. vm_compute. repeat split; reflexivity. Qed.
